@@ -54,3 +54,135 @@ Proof.
     | exact tbl_src_generate_accessor ].
 Qed.
 Print Assumptions C12_tables.
+
+(* ---------------------------------------------------------------------------------------------
+   Step level: for ANY environment, ANY state of the tracer and ANY operand wrappers — every size
+   (unbounded Z, or none), every element type (scalar, tuple, n-tuple, object, nested array), every
+   index and field name.  [bound_to ρ x w]: the name x is bound to the wrapper w. *)
+From NadaV.Proofs Require Import ScalarInv TraceMono C11Program C12Steps.
+
+Theorem C12_zip_sizes_differ : forall ρ a b ex sx ia ey sy ib s,
+  bound_to ρ a (WArray ex sx ia) -> bound_to ρ b (WArray ey sy ib) -> size_eqb sx sy = false ->
+  eval_rhs GenScalar.G ρ (RZip a b) s = Err "IncompatibleTypesError"%string.
+Proof. exact (zip_size_mismatch GenScalar.G). Qed.
+Print Assumptions C12_zip_sizes_differ.
+
+(* zip pairs the element types in operand order and keeps the size *)
+Theorem C12_zip_result : forall ρ a b ex sx ia ey sy ib s w s1,
+  bound_to ρ a (WArray ex sx ia) -> bound_to ρ b (WArray ey sy ib) ->
+  eval_rhs GenScalar.G ρ (RZip a b) s = Ok (w, s1) ->
+  size_eqb sx sy = true /\
+  exists id l r tx ty,
+    ia = Some l /\ ib = Some r
+    /\ w = WArray (DInst (WTuple ex ey None)) sx (Some id)
+    /\ side_mir ex = Ok tx /\ side_mir ey = Ok ty
+    /\ recorded_as s1 id (TyArray (TyTuple tx ty) sx) (ABinary "Zip" l r).
+Proof. exact (zip_accepted GenScalar.G). Qed.
+Print Assumptions C12_zip_result.
+
+(* unzip splits them back in the same order, each half with the array's size *)
+Theorem C12_unzip_result : forall ρ a l r it size ia s w s1,
+  bound_to ρ a (WArray (DInst (WTuple l r it)) size ia) ->
+  eval_rhs GenScalar.G ρ (RUnzip a) s = Ok (w, s1) ->
+  exists id src tl tr,
+    ia = Some src
+    /\ w = WTuple (DArrayType l size) (DArrayType r size) (Some id)
+    /\ marker_mir l = Ok tl /\ marker_mir r = Ok tr
+    /\ recorded_as s1 id (TyTuple (TyArray tl size) (TyArray tr size)) (AUnary "Unzip" src).
+Proof. exact (unzip_accepted GenScalar.G). Qed.
+Print Assumptions C12_unzip_result.
+
+Theorem C12_unzip_of_a_non_pair_array : forall ρ a e size ia s,
+  bound_to ρ a (WArray e size ia) -> (forall l r it, e <> DInst (WTuple l r it)) ->
+  eval_rhs GenScalar.G ρ (RUnzip a) s = Err "AttributeError"%string.
+Proof. exact (unzip_of_a_non_pair_array_rejected GenScalar.G). Qed.
+Print Assumptions C12_unzip_of_a_non_pair_array.
+
+(* map keeps the size; the element type is the function's return type *)
+Theorem C12_map_result : forall ρ a f e size ia fr s w s1,
+  bound_to ρ a (WArray e size ia) -> assoc f ρ = Some (BFun fr) ->
+  eval_rhs GenScalar.G ρ (RMap a f) s = Ok (w, s1) ->
+  exists id src t,
+    ia = Some src /\ fn_ret fr = IScalar t
+    /\ w = WArray (DCls t) size (Some id)
+    /\ recorded_as s1 id (TyArray (TyName (mir_name t)) size) (AMap src (fn_id fr)).
+Proof. exact (map_accepted GenScalar.G). Qed.
+Print Assumptions C12_map_result.
+
+Theorem C12_inner_product_sizes_differ : forall ρ a b ex sx ia ey sy ib s,
+  bound_to ρ a (WArray ex sx ia) -> bound_to ρ b (WArray ey sy ib) -> size_eqb sx sy = false ->
+  eval_rhs GenScalar.G ρ (RInner a b) s = Err "IncompatibleTypesError"%string.
+Proof. exact (inner_size_mismatch GenScalar.G). Qed.
+Print Assumptions C12_inner_product_sizes_differ.
+
+Theorem C12_inner_product_non_integer_elements : forall ρ a b ex sx ia ey sy ib tx ty s,
+  bound_to ρ a (WArray ex sx ia) -> bound_to ρ b (WArray ey sy ib) -> size_eqb sx sy = true ->
+  inner_mir ex = Ok tx -> inner_mir ey = Ok ty ->
+  is_primitive_integer tx = false \/ is_primitive_integer ty = false ->
+  eval_rhs GenScalar.G ρ (RInner a b) s = Err "InvalidTypeError"%string.
+Proof. exact (inner_non_integer GenScalar.G). Qed.
+Print Assumptions C12_inner_product_non_integer_elements.
+
+Theorem C12_inner_product_result : forall ρ a b ex sx ia ey sy ib s w s1,
+  bound_to ρ a (WArray ex sx ia) -> bound_to ρ b (WArray ey sy ib) ->
+  eval_rhs GenScalar.G ρ (RInner a b) s = Ok (w, s1) ->
+  size_eqb sx sy = true /\
+  exists id l r tx ty tl tr,
+    ia = Some l /\ ib = Some r
+    /\ inner_mir ex = Ok tx /\ is_primitive_integer tx = true
+    /\ inner_mir ey = Ok ty /\ is_primitive_integer ty = true
+    /\ elt_class ex = Ok tl /\ elt_class ey = Ok tr
+    /\ w = WScalar (mode_max (fst tl) (fst tr), snd tl) (Some id) None
+    /\ recorded_as s1 id (TyName (mir_name (mode_max (fst tl) (fst tr), snd tl))) (ABinary "InnerProduct" l r).
+Proof. exact (inner_accepted GenScalar.G). Qed.
+Print Assumptions C12_inner_product_result.
+
+(* every index that is not a position of the n-tuple, negative ones included, whatever n *)
+Theorem C12_index_not_a_position : forall ρ a vals it i s,
+  bound_to ρ a (WNTuple vals it) -> i < 0 \/ Z.of_nat (List.length vals) <= i ->
+  eval_rhs GenScalar.G ρ (RIndex a i) s = Err "IndexError"%string.
+Proof. exact (index_out_of_range GenScalar.G). Qed.
+Print Assumptions C12_index_not_a_position.
+
+(* an accepted index is a position in 0..n-1 and is what the recorded accessor carries *)
+Theorem C12_index_result : forall ρ a vals it i s w s1,
+  bound_to ρ a (WNTuple vals it) ->
+  eval_rhs GenScalar.G ρ (RIndex a i) s = Ok (w, s1) ->
+  0 <= i < Z.of_nat (List.length vals) /\
+  exists v src, nth_wrap vals (Z.to_nat i) = Some v /\ it = Some src /\
+    ((exists b li lv, v = WScalar (MConst, b) li lv /\ w = v)
+     \/ (exists ty, wid w = Some (counter s + 1) /\ recorded_as s1 (counter s + 1) ty (ANTupleAcc i src))).
+Proof. exact (index_accepted GenScalar.G). Qed.
+Print Assumptions C12_index_result.
+
+Theorem C12_undeclared_field : forall ρ a vals it k s,
+  bound_to ρ a (WObject vals it) -> reserved_attr k = false -> assoc k vals = None ->
+  eval_rhs GenScalar.G ρ (RField a k) s = Err "AttributeError"%string.
+Proof. exact (undeclared_field_rejected GenScalar.G). Qed.
+Print Assumptions C12_undeclared_field.
+
+Theorem C12_array_new_of_nothing : forall ρ s, eval_rhs GenScalar.G ρ (RArrayNew []) s = Err "ValueError"%string.
+Proof. exact (array_new_empty_rejected_anywhere GenScalar.G). Qed.
+Print Assumptions C12_array_new_of_nothing.
+
+(* an accepted Array.new has elements of one class and one type, and counts them *)
+Theorem C12_array_new_result : forall ρ es s w s1,
+  eval_rhs GenScalar.G ρ (RArrayNew es) s = Ok (w, s1) ->
+  exists ws first ids t0,
+    Forall2 (bound_to ρ) es ws /\ hd_error ws = Some first
+    /\ Forall (same_as first) ws
+    /\ Forall2 has_id ws ids
+    /\ to_mir first = Ok t0
+    /\ w = WArray (DInst first) (Some (Z.of_nat (List.length ws))) (Some (counter s + 1))
+    /\ recorded_as s1 (counter s + 1) (TyArray t0 (Some (Z.of_nat (List.length ws)))) (ANew "ArrayNew" ids).
+Proof. exact (array_new_accepted GenScalar.G). Qed.
+Print Assumptions C12_array_new_result.
+
+(* the premises are met by a real program state: zip of a secret and a public array of size 4, then unzip *)
+Example C12_steps_nonvacuous :
+  exists ρ s w s1,
+    exec GenScalar.G 10 [] [SLet "a" (RInput "a" "P" "" (IArray (IScalar (MSecret, BInt)) (Some 4)));
+                            SLet "b" (RInput "b" "P" "" (IArray (IScalar (MPublic, BInt)) (Some 4)))]%string init_state = Ok (ρ, s)
+    /\ eval_rhs GenScalar.G ρ (RZip "a" "b")%string s = Ok (w, s1)
+    /\ recorded_as s1 3 (TyArray (TyTuple (TyName "SecretInteger") (TyName "Integer")) (Some 4)) (ABinary "Zip" 1 2)%string.
+Proof. do 4 eexists. split; [vm_compute; reflexivity|]. split; vm_compute; reflexivity. Qed.
